@@ -3,7 +3,7 @@
 //! around a recording inner controller exactly like the crate's own test does.
 //!
 //! Stream c05_wrapper: per case a short history of measurements fed to ONE two-way wrapper (`m`) and
-//! one-way measurements (`ow`).  Op lines carry the wire timestamps (`s=`, `r=`: what the code sees) and
+//! one-way measurements (`ow`; `sock` = the GPSd/SOCK composition `time - from_seconds(offset)`).  Op lines carry the wire timestamps (`s=`, `r=`: what the code sees) and
 //! the TRUE times on the unbounded timeline (`ts=`, `tr=`: only the oracle reads them; the model ignores
 //! them).  Observation: what reached the inner controller.
 #![allow(clippy::all, clippy::pedantic)]
@@ -91,6 +91,67 @@ fn wire(t: i128) -> u64 {
     t as u64
 }
 
+/// seconds values for the one-way SOCK path, aimed at the decision boundaries of `from_seconds`:
+/// the fraction `x - floor(x)` rounding to exactly 1.0 (tiny negatives), +-2^-33 / +-2^-32 (half a unit / one
+/// unit), neighbours of integers, signed zero, the +-2^31 s saturation limits, and ordinary offsets.
+fn gen_seconds(rng: &mut Rng) -> f64 {
+    let nb = |x: f64, d: i64| f64::from_bits((x.to_bits() as i64 + d) as u64);
+    let v = match rng.below(24) {
+        0 => 1e-17,
+        1 => 1e-16,
+        2 => 1.1102230246251565e-16, // 2^-53: largest magnitude whose negative still rounds the fraction to 1.0
+        3 => 2.220446049250313e-16,  // 2^-52
+        4 => 1.1641532182693481e-10, // 2^-33
+        5 => 2.3283064365386963e-10, // 2^-32
+        6 => 2.3283064370807974e-10, // 1 / (2^32 - 1)
+        7 => f64::from_bits(1),      // smallest subnormal
+        8 => f64::MIN_POSITIVE,
+        9 => 0.0,
+        10 => nb(rng.range(1, 5) as f64, -1), // just below an integer
+        11 => nb(rng.range(1, 5) as f64, 1),  // just above an integer
+        12 => rng.range(-5, 5) as f64,
+        13 => rng.range(-5, 5) as f64 + 0.5,
+        14 => nb(2147483648.0, -1),           // just inside +-2^31 s
+        15 => 2147483647.0 + rng.f64_unit(),
+        16 => f64::from_bits(rng.next_u64() & 0x3fff_ffff_ffff_ffff) * 1e-300, // tiny, random mantissa
+        17 => rng.f64_unit() * 1.2e-16,
+        18 => rng.f64_unit() * 1e-9,
+        19 => rng.f64_unit() * 1e-3,
+        20 => 10f64.powi(rng.range(-20, 9) as i32) * (0.5 + rng.f64_unit()),
+        _ => rng.f64_unit() * 4.0,
+    };
+    let v = if v.is_finite() { v } else { 0.0 };
+    if rng.chance(1, 2) { -v } else { v }
+}
+
+/// floor(x * 2^(32+16)) for finite |x| < 2^31, exactly (x = mant * 2^exp)
+fn scaled_floor(x: f64) -> i128 {
+    let bits = x.to_bits();
+    let neg = bits >> 63 == 1;
+    let e = ((bits >> 52) & 0x7ff) as i32;
+    let frac = bits & ((1u64 << 52) - 1);
+    let (mant, exp) = if e == 0 { (frac, -1074) } else { (frac | (1u64 << 52), e - 1075) };
+    let sh = exp + 48; // value * 2^48 = mant * 2^sh
+    let mag = mant as i128;
+    if sh >= 0 {
+        let v = mag << sh; // |x| < 2^31 => < 2^79
+        return if neg { -v } else { v };
+    }
+    let k = (-sh) as u32;
+    let (q, rem) = if k >= 64 { (0i128, mag != 0) } else { (mag >> k, mag & ((1i128 << k) - 1) != 0) };
+    if !neg {
+        q
+    } else if rem {
+        -q - 1
+    } else {
+        -q
+    }
+}
+
+fn sock_line(t: i128, x: f64) -> String {
+    format!("sock sys=0 s=0 r={} x={}", wire(t), common::f64hex(x))
+}
+
 fn m_line(sys: bool, ts: i128, tr: i128) -> String {
     format!("m sys={} s={} r={} ts={} tr={}", sys as u8, wire(ts), wire(tr), ts, tr)
 }
@@ -111,6 +172,14 @@ fn gen_case(rng: &mut Rng, idx: u64, _run: &Run) -> Vec<String> {
         let [t1, t2, t3, t4] = corpus[idx as usize];
         return vec![m_line(true, t1, t2), m_line(false, t3, t4)];
     }
+    // one-way SOCK corpus: offsets whose fraction rounds to 1.0, half units, neighbours of integers
+    let sock_corpus: [f64; 12] = [
+        -1e-17, 1e-17, -1e-16, -1.1102230246251565e-16, -1.1641532182693481e-10, 1.1641532182693481e-10,
+        -2.3283064365386963e-10, -0.0, -0.9999999999999999, 0.9999999999999999, -1.0000000000000002, 0.25,
+    ];
+    if (idx as usize) < corpus.len() + sock_corpus.len() {
+        return vec![sock_line((1i128 << 63) + 12345, sock_corpus[idx as usize - corpus.len()])];
+    }
     let mut ops = vec![];
     let n = rng.usize(1, 4);
     for _ in 0..n {
@@ -120,6 +189,11 @@ fn gen_case(rng: &mut Rng, idx: u64, _run: &Run) -> Vec<String> {
                 let loc = gen_time(rng);
                 let remote = loc + gen_delta(rng);
                 ops.push(format!("ow sys={} s={} r={} ts={} tr={}", rng.below(2), wire(remote), wire(loc), remote, loc));
+            }
+            2 | 3 => {
+                // one-way through the SOCK composition: sender_ts = time - from_seconds(sample.offset)
+                let t = gen_time(rng);
+                ops.push(sock_line(t, gen_seconds(rng)));
             }
             1 => {
                 // history noise: an incoming without outgoing, or two outgoing in a row
@@ -285,6 +359,57 @@ fn exec_case(ops: &[String], run: &mut Run) {
                     }
                 }
             }
+            "sock" => {
+                // the GPSd/SOCK run loop (ntpd/src/daemon/sock_source.rs): the sample's offset is local - reference;
+                // the measurement it hands to the one-way wrapper is {sender_ts: time - from_seconds(offset),
+                // receiver_ts: time}.  Same expression here, same wrapper.
+                let x = match kv(&w, "x").and_then(common::f64unhex) {
+                    Some(x) if x.is_finite() => x,
+                    _ => {
+                        run.end_op("bad-op");
+                        continue;
+                    }
+                };
+                let time = NtpTimestamp::from_fixed_int(r);
+                let mut m = measurement(false, 0, r, k as u8);
+                m.sender_ts = time - NtpDuration::from_seconds(x);
+                one.inner.lock().unwrap().last = None;
+                one.handle_measurement(m);
+                let got = one.inner.lock().unwrap().last;
+                match got {
+                    None => run.end_op("dropped"),
+                    Some(m) => {
+                        let off = m.offset.to_bits_i64();
+                        let local = u64::from_be_bytes(m.localtime.to_bits());
+                        if x.abs() < 2147483648.0 {
+                            // oracle (implementation only): remote - local = -offset_sample, to within 2^-31 s
+                            // (two units; 2^-16 unit of slack for the roundings inside from_seconds), exactly
+                            interesting = true;
+                            run.hit(if x < 0.0 { "sock-negative" } else { "sock-nonnegative" });
+                            if x != 0.0 && x.abs() < 1.2e-16 {
+                                run.hit("sock-fraction-rounds-to-one-region");
+                            }
+                            key.push_str("s;");
+                            let sum = ((off as i128) << 16) + scaled_floor(x); // (off + x*2^32) * 2^16, floored
+                            if sum < -(2 << 16) - 1 || sum > (2 << 16) + 1 {
+                                run.oracle_fail("oneway_sock_offset", "", &format!(
+                                    "SOCK sample offset {:e} s (local - reference) at local time {}: one-way offset (remote - local) reported as {} units = {:e} s, expected {:e} s within 2^-31 s",
+                                    x, r, off, off as f64 / 4294967296.0, -x));
+                            }
+                            if (x > 0.0 && off > 0) || (x < 0.0 && off < 0) {
+                                run.oracle_fail("oneway_sock_sign", "", &format!(
+                                    "SOCK sample offset {:e} s: one-way offset {} units has the sign of the sample (must be the opposite)", x, off));
+                            }
+                        } else {
+                            run.hit("sock-saturating");
+                        }
+                        if local != r {
+                            run.oracle_fail("localtime", "", &format!("localtime {} but receive time {}", local, r));
+                        }
+                        run.end_op(&format!("delivered off={} delay=- local={}", off, local));
+                    }
+                }
+            }
             _ => run.end_op("bad-op"),
         }
     }
@@ -300,7 +425,7 @@ fn entry() {
     match stream.as_str() {
         "c05_wrapper" => common::drive(
             "c05_wrapper",
-            "histories of 1-8 measurements on a TwoWaySourceControllerWrapper / OneWaySourceControllerWrapper around a recording inner controller; true times in eras -2..3 at era boundaries/midpoints, differences at 0, ±1, ±2^32, ±2^62, ±2^63 and random; non-trivial = at least one delivered measurement whose true differences are representable (oracle applied); distinct by op text",
+            "histories of 1-8 measurements on a TwoWaySourceControllerWrapper / OneWaySourceControllerWrapper around a recording inner controller; true times in eras -2..3 at era boundaries/midpoints, differences at 0, ±1, ±2^32, ±2^62, ±2^63 and random; one-way SOCK samples (20% of ops) with offsets at ±1e-17, ±2^-53, ±2^-33, ±2^-32, neighbours of integers, ±0, ±2^31 and random magnitudes 1e-20..1e9; non-trivial = at least one delivered measurement whose true differences are representable (oracle applied); distinct by op text",
             gen_case,
             exec_case,
         ),
